@@ -420,3 +420,33 @@ ALL_PRED = REG_PRE.add(Contract(
 REG[ALL_PRED.target] = ALL_PRED
 REG.variants[ALL_PRED.target] = [ALL_PRED]
 REG.add(REG_PRE["searchtree:predecessors"])
+
+
+def _witness_all_pred(rnd):
+    n = rnd.randint(2, 6)
+    labels = rnd.sample(range(6), n)
+    parent = {i: rnd.randrange(i) for i in range(1, n)}
+    depth = {0: 0}
+    for i in range(1, n):
+        depth[i] = depth[parent[i]] + 1
+    node = rnd.randrange(1, n)
+    anc = []
+    x = node
+    while x != 0:
+        x = parent[x]
+        anc.append(x)
+    start = rnd.choice(anc)
+    edges = [(labels[parent[i]], labels[i]) for i in range(1, n)]
+    rnd.shuffle(edges)
+    dl = {labels[i]: d for i, d in depth.items()}
+    return {"graph": {"edges": edges}, "node": labels[node], "start_node": labels[start]}, {"tree_depth": lambda v: dl.get(v, 99)}
+
+
+def _adapt_all_pred(a):
+    import networkx as nx
+    g = nx.DiGraph()
+    g.add_edges_from(a["graph"]["edges"])
+    return {"graph": g, "node": a["node"], "start_node": a["start_node"]}
+
+
+ALL_PRED.witness, ALL_PRED.adapt = _witness_all_pred, _adapt_all_pred
